@@ -110,7 +110,7 @@ def boot():
 
     # ---- seams (plain attribute replacement; nothing in /repo is edited)
     ft = prims.FakeThreading()
-    db_base.tx_lock = prims.SimRLock('tx')
+    db_base.tx_lock = prims.TxLock('tx')
     post_tx_queue.threading = ft
     default_scheduler.threading = ft
     default_scheduler.futures = prims.FakeFutures()
@@ -355,7 +355,8 @@ class World(object):
         m.hb_checker._stopped = True
         m.sqlite_lock._locks.clear()
         m.sqlite_lock._mutex = prims.SimSemaphore(1, 'sqlite_lock._mutex')
-        m.db_base.tx_lock = prims.SimRLock('tx')
+        m.db_base.tx_lock = prims.TxLock('tx')
+        m.db_base.tx_lock.windows = float(c.get('overlap', 0.0) or 0.0)
 
         self.net = m.net.Network(sim, self)
         self.net.profile = c['net']
@@ -389,7 +390,7 @@ class World(object):
             m.sched_base._SCHEDULER = None
             m.auth_ctx.set_ctx(None)
             World.current = None
-            m.db_base.tx_lock = prims.SimRLock('tx')
+            m.db_base.tx_lock = prims.TxLock('tx')
             reset_db()
 
     # ------------------------------------------------------------------- ids
